@@ -84,3 +84,30 @@ theorem C13_crash_configure_single_ref {s : St} (h : Inv s) (c d : CId) :
   ⟨(inv_mkapp h c).refs_le_one d, rfl⟩
 
 end TmVerif.AppCfg
+
+namespace TmVerif.AppCfg
+
+/-- `_configure` of a configurable cache entry is its two mutations: the container directory, then the running link
+    (`fs.symlink_safe`'s rename; its hidden temporary link is no entry of the model). -/
+theorem configure_eq_prims (s : St) (i g : Nat) (h : alookup i s.cache = some (g, true)) :
+    pstep (pstep s (.mkapp ⟨i, g⟩)) (.runlink i ⟨i, g⟩) = (configure s i).1 := by
+  simp [pstep, configure, h]
+
+/-- **C13 at every crash point of `_configure`** (under the guard of `inv_configure`: the container of the cached
+    generation is not already in cleanup): before the directory, between directory and link, after the link - the
+    invariant holds, hence at most one link per container. -/
+theorem C13_crash_configure_all {s : St} (h : Inv s) (i g : Nat) (hc : alookup i s.cache = some (g, true))
+    (hg : alookup (LinkName.inst i) s.cleanup ≠ some ⟨i, g⟩ ∧
+          alookup (LinkName.cont ⟨i, g⟩) s.cleanup ≠ some ⟨i, g⟩) (d : CId) :
+    refs s d ≤ 1 ∧ refs (pstep s (.mkapp ⟨i, g⟩)) d ≤ 1 ∧
+    refs (pstep (pstep s (.mkapp ⟨i, g⟩)) (.runlink i ⟨i, g⟩)) d ≤ 1 := by
+  refine ⟨h.refs_le_one d, (inv_mkapp h _).refs_le_one d, ?_⟩
+  rw [configure_eq_prims s i g hc]
+  refine (inv_configure h i ?_).refs_le_one d
+  intro g' hg'
+  rw [hc] at hg'
+  simp at hg'
+  subst hg'
+  exact hg
+
+end TmVerif.AppCfg
